@@ -179,9 +179,9 @@ def res_kind(l):
 # generator plans
 
 G_COMMON_QUICK = [['model', 2500, 25], ['entities', 6], ['entity-boundary', 1], ['fixtures', 4000], ['mut', 1500, 400], ['enum', 2, 0], ['enum', 2, 1],
-                  ['enum', 2, 2], ['enum', 2, 3]]
+                  ['enum', 2, 2], ['enum', 2, 3], ['lexedge', 1], ['manyattrs', 1]]
 G_COMMON_THOROUGH = [['model', 120000, 25], ['entities', 64], ['entity-boundary', 1], ['exotic', 300], ['model', 30000, 0], ['fixtures', 20000], ['mut', 100000, 2000],
-                     ['prefixes', 600], ['dtdjunk', 3000]] + [['enum', 4, k] for k in range(6)]
+                     ['prefixes', 600], ['dtdjunk', 3000], ['lexedge', 1], ['manyattrs', 1], ['dtdlit', 1], ['cdatalines', 5], ['entnames', 1]] + [['enum', 4, k] for k in range(6)]
 
 def plan(quick, thorough):
     return {'quick': quick, 'thorough': thorough}
@@ -349,6 +349,12 @@ def chk_borrowed(il, txt):
 ALL = 'tok,arena,ev,api,lk,it,tp'
 
 PROPS = collections.OrderedDict()
+def chk_itx(il, txt):
+    """the navigation API of the returned Document is consistent with itself (harness, `it` section):
+    descendants() = children() walk, forward = backward, drained iterators stay drained, text()/tail()
+    follow from the adjacent nodes, every way of stepping through attributes() visits each once"""
+    return ['navigation API: ' + l[9:] for l in il if l.startswith('ITX FAIL ')][:3]
+
 PROPS['C01'] = P_('parsing is total', 'tok,arena', plan(G_COMMON_QUICK, G_COMMON_THOROUGH),
                   observable=None, internal=[], impl_checks=[chk_no_panic, chk_depth], limits=True,
                   special='scale_parse', crash_is_violation=True)
@@ -404,8 +410,8 @@ def res_kind_only(line, txt):
     f = line.split(' ')
     return ' '.join(f[:2])
 
-PROPS['C02'] = P_('well-formed ordered tree', 'arena', plan(G_COMMON_QUICK, G_COMMON_THOROUGH),
-                  observable=mk_obs(lambda d: d.structure()), internal=[], oracles=['C02.'], special='tree', requires=['markup', 'texts'])
+PROPS['C02'] = P_('well-formed ordered tree', 'arena,it', plan(G_COMMON_QUICK, G_COMMON_THOROUGH),
+                  observable=mk_obs(lambda d: d.structure()), internal=[], oracles=['C02.'], impl_checks=[chk_itx], special='tree', requires=['markup', 'texts'])
 def chk_decl_no_node(il, txt):
     """C03: the XML declaration yields no node: when the input begins (after an optional BOM) with
     `<?xml` and white space, an accepted parse has no PI named `xml` standing at that place"""
@@ -421,14 +427,14 @@ def chk_decl_no_node(il, txt):
             return ['the XML declaration produced a processing-instruction node (target xml) as first child of the root node']
     return []
 
-PROPS['C03'] = P_('markup mirrors the logical structure', 'tok,arena', plan(G_COMMON_QUICK + [['dtdlit', 1]], G_COMMON_THOROUGH + [['dtdlit', 1]]), impl_checks=[chk_decl_no_node],
+PROPS['C03'] = P_('markup mirrors the logical structure', 'tok,arena,it', plan(G_COMMON_QUICK + [['dtdlit', 1]], G_COMMON_THOROUGH + [['dtdlit', 1]]), impl_checks=[chk_decl_no_node, chk_itx],
                   observable=obs_reject_wellformed(lambda d: d.markup()), internal=[('TK', tok_strings), ('TKRES', res_kind_only)], special='markup')
-PROPS['C04'] = P_('character data decoding', 'arena,ev',
-                  plan(G_COMMON_QUICK[:2] + [['pieces-text', 2], ['cdatalines', 4]], G_COMMON_THOROUGH[:3] + [['pieces-text', 4], ['cdatalines', 5]]),
-                  observable=mk_obs(lambda d: d.texts()), internal=[('EV F', strip_storage)], special='pieces_text', requires=['markup'])
-PROPS['C05'] = P_('attributes', 'arena,ev',
-                  plan(G_COMMON_QUICK[:2] + [['pieces-attr', 2]], G_COMMON_THOROUGH[:3] + [['pieces-attr', 4]]),
-                  observable=mk_obs(lambda d: d.attributes()), internal=[('EV V', strip_storage)], special='pieces_attr', requires=['markup'])
+PROPS['C04'] = P_('character data decoding', 'arena,ev,it',
+                  plan(G_COMMON_QUICK[:2] + [['pieces-text', 2], ['cdatalines', 4], ['lexedge', 1]], G_COMMON_THOROUGH[:3] + [['pieces-text', 4], ['cdatalines', 5], ['lexedge', 1]]),
+                  observable=mk_obs(lambda d: d.texts()), impl_checks=[chk_itx], internal=[('EV F', strip_storage)], special='pieces_text', requires=['markup'])
+PROPS['C05'] = P_('attributes', 'arena,ev,it',
+                  plan(G_COMMON_QUICK[:2] + [['pieces-attr', 2], ['lexedge', 1], ['manyattrs', 1]], G_COMMON_THOROUGH[:3] + [['pieces-attr', 4], ['lexedge', 1], ['manyattrs', 1]]),
+                  observable=mk_obs(lambda d: d.attributes()), impl_checks=[chk_itx], internal=[('EV V', strip_storage)], special='pieces_attr', requires=['markup'])
 NS_ERRORS = ('err:UnknownNamespace', 'err:DuplicatedNamespace', 'err:UnexpectedXmlUri', 'err:UnexpectedXmlnsUri',
              'err:InvalidXmlPrefixUri', 'err:InvalidElementNamePrefix', 'err:NamespacesLimitReached')
 
@@ -454,26 +460,26 @@ PROPS['C08'] = P_('ill-formed documents are rejected', 'tok,arena', plan(G_COMMO
 PROPS['C09'] = P_('entity expansion is bounded', 'arena,ev', plan([['model', 1500, 30]], [['model', 60000, 30]]),
                   observable=obs_flag('EntityReferenceLoop'), internal=['EV L'], impl_checks=[chk_size_bound, chk_no_panic], special='entities',
                   crash_is_violation=True)
-PROPS['C10'] = P_('read operations are total', 'arena,api,lk,it,tp', plan(G_COMMON_QUICK[:3], G_COMMON_THOROUGH[:4]),
+PROPS['C10'] = P_('read operations are total', 'arena,api,lk,it,tp', plan(G_COMMON_QUICK[:3] + [['lexedge', 1], ['manyattrs', 1]], G_COMMON_THOROUGH[:4] + [['lexedge', 1], ['manyattrs', 1]]),
                   observable=api_status(['DQ', 'Q', 'AQ', 'NQ', 'LK', 'IT', 'TP', 'AE']), impl_checks=[chk_api_no_panic],
                   special='scale_api', crash_is_violation=True)
-PROPS['C11'] = P_('navigation agrees with the tree', 'arena,api,it', plan(G_COMMON_QUICK[:3], G_COMMON_THOROUGH[:4]),
-                  observable=obs_api(['DQ', 'Q', 'IT', 'AQ', 'NQ']), oracles=['C11.'])
-PROPS['C12'] = P_('name lookups', 'arena,api,lk', plan(G_COMMON_QUICK[:3], G_COMMON_THOROUGH[:4]),
+PROPS['C11'] = P_('navigation agrees with the tree', 'arena,api,it', plan(G_COMMON_QUICK[:3] + [['lexedge', 1], ['manyattrs', 1]], G_COMMON_THOROUGH[:4] + [['lexedge', 1], ['manyattrs', 1]]),
+                  observable=obs_api(['DQ', 'Q', 'IT', 'AQ', 'NQ']), oracles=['C11.'], impl_checks=[chk_itx])
+PROPS['C12'] = P_('name lookups', 'arena,api,lk', plan(G_COMMON_QUICK[:3] + [['lexedge', 1], ['manyattrs', 1]], G_COMMON_THOROUGH[:4] + [['lexedge', 1], ['manyattrs', 1]]),
                   observable=obs_api(['LK', 'AE', 'NQ', 'AQ']), oracles=['C12.'], special='lookups')
-PROPS['C13'] = P_('source ranges', 'arena,api', plan(G_COMMON_QUICK[:3], G_COMMON_THOROUGH[:4]),
+PROPS['C13'] = P_('source ranges', 'arena,api', plan(G_COMMON_QUICK[:3] + [['lexedge', 1], ['manyattrs', 1]], G_COMMON_THOROUGH[:4] + [['lexedge', 1], ['manyattrs', 1]]),
                   observable=mk_obs(lambda d: d.ranges()), oracles=['C13.'], special='shift', requires=['structure', 'texts'])
 PROPS['C14'] = P_('text positions and error reports', 'arena,tp', plan(G_COMMON_QUICK + [['dtdjunk', 720]], G_COMMON_THOROUGH + [['dtdjunk', 20000]]),
                   observable=obs_errors, impl_checks=[chk_err_pos], special='errshift')
 PROPS['C15'] = P_('nodes_limit', 'arena', plan([['model', 600, 10]], [['model', 6000, 10], ['mut', 3000, 400]]),
                   observable=obs_limit, oracles=['C15.'], special='limits')
-PROPS['C16'] = P_('allow_dtd', 'arena', plan([['model', 1500, 20], ['mut', 800, 400]], [['model', 20000, 20], ['mut', 20000, 1000]]),
+PROPS['C16'] = P_('allow_dtd', 'arena', plan([['model', 1500, 20], ['mut', 800, 400], ['lexedge', 1]], [['model', 20000, 20], ['mut', 20000, 1000], ['lexedge', 1]]),
                   observable=obs_flag('DtdDetected'), impl_checks=[chk_no_growth_default], special='dtdpairs')
-PROPS['C17'] = P_('node identity, ordering, hashing', 'arena,api', plan([['model', 300, 0]], [['model', 3000, 0]]),
-                  observable=obs_api(['DQ']), special='ord')
-PROPS['C18'] = P_('borrowed strings', 'arena', plan(G_COMMON_QUICK[:3], G_COMMON_THOROUGH[:4]),
+PROPS['C17'] = P_('node identity, ordering, hashing', 'arena,api,it', plan([['model', 300, 0], ['entities', 4], ['entity-boundary', 1]], [['model', 3000, 0], ['entities', 16], ['entity-boundary', 1]]),
+                  observable=obs_api(['DQ']), special='ord', impl_checks=[chk_itx])
+PROPS['C18'] = P_('borrowed strings', 'arena', plan(G_COMMON_QUICK[:3] + [['lexedge', 1], ['manyattrs', 1]], G_COMMON_THOROUGH[:4] + [['lexedge', 1], ['manyattrs', 1]]),
                   observable=mk_obs(lambda d: d.storages()), impl_checks=[chk_borrowed], special='storage', requires=['structure', 'texts', 'attributes'])
-PROPS['C19'] = P_('determinism and features', 'arena', plan([['model', 800, 20], ['fixtures', 4000]], [['model', 10000, 20], ['fixtures', 20000], ['mut', 5000, 400]]),
+PROPS['C19'] = P_('determinism and features', 'arena', plan([['model', 800, 20], ['fixtures', 4000], ['manyattrs', 1], ['lexedge', 1], ['entities', 4]], [['model', 10000, 20], ['fixtures', 20000], ['mut', 5000, 400], ['manyattrs', 1], ['lexedge', 1], ['entities', 16]]),
                   observable=None, internal=[], special='features')
 PROPS['C20'] = P_('immutable, thread-shareable, no unsafe', 'arena,api', plan([['model', 200, 0]], [['model', 6000, 0]]),
                   observable=None, special='threads')
